@@ -15,6 +15,7 @@ func init() { registry["C20"] = checkC20 }
 // Decided by: every function of iohelp.go against its byte-level contract
 // (all classes), the round-trip lemmas, and the non-interference clauses.
 func checkC20(r *Run) error {
+	r.byteTheory = true
 	e, err := r.loadEngine(r.Repo, "./iohelp")
 	if err != nil {
 		return err
